@@ -23,8 +23,11 @@ WORD = ALPHA + DIGITS + "-_"
 
 class LexError(Exception):
     def __init__(self, msg, offset):
-        Exception.__init__(self, msg)
+        Exception.__init__(self, msg, offset)
         self.offset = offset
+
+    def __str__(self):
+        return str(self.args[0])
 
 
 def decode_string_body(text, i):
